@@ -23,6 +23,7 @@ type lenEval struct {
 	subject ast.Expr // the indexed slice / tuple expression
 	n       int
 	depth   int
+	site    ast.Node // the indexing site (assignments after it are not replayed)
 }
 
 func (e *lenEval) info() *types.Info { return e.fc.pkg.TypesInfo }
@@ -132,13 +133,96 @@ func (e *lenEval) evalBool(x ast.Expr) (bool, bool) {
 			}
 		}
 	case *ast.Ident:
+		if tv, ok := e.info().Types[v]; ok && tv.Value != nil && tv.Value.Kind() == constant.Bool {
+			return constant.BoolVal(tv.Value), true
+		}
 		if o := astx.IdentObj(e.info(), v); o != nil && e.depth < 4 {
 			if init := e.singleInit(o); init != nil {
 				e.depth++
 				defer func() { e.depth-- }()
 				return e.evalBool(init)
 			}
+			e.depth++
+			defer func() { e.depth-- }()
+			return e.replayBool(o)
 		}
+	}
+	return false, false
+}
+
+// replayBool: the value of a local bool assigned several times (e.g. in the clauses of a switch on the
+// length), by replaying the assignments that precede the site in source order under the hypothesis.
+func (e *lenEval) replayBool(o types.Object) (bool, bool) {
+	v, isVar := o.(*types.Var)
+	if !isVar || e.site == nil || v.Pos() < e.fd.Pos() || v.Pos() > e.fd.End() {
+		return false, false
+	}
+	vals := map[bool]bool{}
+	// `var x bool` starts false; `x := expr` is an assignment like the others
+	declared := false
+	ast.Inspect(e.fd.Body, func(n ast.Node) bool {
+		if vs, ok := n.(*ast.ValueSpec); ok && len(vs.Values) == 0 {
+			for _, nm := range vs.Names {
+				if e.info().Defs[nm] == o {
+					declared = true
+				}
+			}
+		}
+		return true
+	})
+	if declared {
+		vals[false] = true
+	}
+	okAll := true
+	siteConds := map[ast.Node]bool{}
+	for _, cd := range e.fc.par.Known(e.site, e.fd) {
+		siteConds[cd.At] = true
+	}
+	astx.Writes(e.fd.Body, func(l ast.Expr, at ast.Node) {
+		if astx.IdentObj(e.info(), l) != o || at.Pos() > e.site.Pos() {
+			return
+		}
+		as, ok := at.(*ast.AssignStmt)
+		if !ok || len(as.Rhs) != len(as.Lhs) {
+			okAll = false
+			return
+		}
+		var rhs ast.Expr
+		for i := range as.Lhs {
+			if as.Lhs[i] == l {
+				rhs = as.Rhs[i]
+			}
+		}
+		b, known := e.evalBool(rhs)
+		state := 1
+		for _, cd := range e.fc.par.Known(at, e.fd) {
+			if siteConds[cd.At] {
+				continue
+			}
+			cv, kn := e.evalBool(cd.E)
+			if kn && cv != cd.Pos {
+				state = 0
+				break
+			}
+			if !kn {
+				state = 2
+			}
+		}
+		switch {
+		case state == 0:
+		case !known:
+			okAll = false
+		case state == 1:
+			vals = map[bool]bool{b: true}
+		default:
+			vals[b] = true
+		}
+	})
+	if !okAll || len(vals) != 1 {
+		return false, false
+	}
+	for b := range vals {
+		return b, true
 	}
 	return false, false
 }
@@ -263,7 +347,7 @@ func (c *ctx) bounds() {
 			var badN []string
 			unknown := false
 			for h := 0; h <= 6; h++ {
-				ev := &lenEval{fc: fc, fd: fd, subject: subject, n: h}
+				ev := &lenEval{fc: fc, fd: fd, subject: subject, n: h, site: nn}
 				if !ev.feasible(conds) {
 					continue
 				}
